@@ -63,7 +63,11 @@ func genC07(t *rapid.T) any {
 		// fragment blocks (the fragment table needs a second metadata block), an inode table and a root listing
 		// of several metadata blocks. No subdirectories, so the tree stays outside KF-SQ-DIRTABLE.
 		c.Tree = nil
-		nf := rapid.SampledFrom([]int{300, 520, 700}).Draw(t, "flatN")
+		counts := []int{300, 520}
+		if hx.Thorough() {
+			counts = append(counts, 700, 1100)
+		}
+		nf := rapid.SampledFrom(counts).Draw(t, "flatN")
 		for i := 0; i < nf; i++ {
 			sz := unit/2 + 1 + (i*37)%(unit/2-1)
 			if i%9 == 0 {
